@@ -59,6 +59,20 @@ func genCase(t *rapid.T) Case {
 		o.Floats = gen.SmallInt
 	}
 	g := gen.Tree(t, o)
+	if mode == "ewkb" && g.IsCollection() && rapid.IntRange(0, 4).Draw(t, "memberSRIDs") == 0 {
+		// members of a collection may carry their own SRID in go-geom; EWKB then flags
+		// and writes it for that member too (SRID word exactly where it is non-zero)
+		first := true
+		g.Walk(func(x *model.G) {
+			if first {
+				first = false
+				return
+			}
+			if rapid.Bool().Draw(t, "hasSRID") {
+				x.SRID = gen.SRIDs(t)
+			}
+		})
+	}
 	c := Case{
 		G: *g, Mode: mode, XDR: rapid.Bool().Draw(t, "xdr"),
 		Route:  rapid.IntRange(0, int(model.NumRoutes)-1).Draw(t, "route"),
